@@ -89,10 +89,37 @@ def rule_delegation(ctx, m, modules, floor=None):
     n = 0
     for mname in modules:
         mod = m.py(mname)
+        attrs_of = {}
+        for cname in mod.classes:
+            init = mod.funcs.get(cname + '.__init__')
+            if init is not None:
+                attrs_of[cname] = {s.target[2] for s in walk_stmts(init.body) if s.k == 'assign' and s.target[0] == 'attr' and s.target[1] == ('var', 'self')}
         for q, f in sorted(mod.funcs.items()):
             wparams = [p for p in f.args + f.kwonly if p not in ('self', 'cls')]
-            if not wparams and not f.kwarg:
+            if not wparams and not f.kwarg and not f.cls:
                 continue
+            # (1d) inside a method, an in-package callee's parameter that is also an attribute the class sets in __init__ (a setting of the object)
+            # is bound at the call: otherwise the callee falls back to its default while the object carries another value
+            if f.cls and f.cls in attrs_of:
+                for s, call in calls_in(f.body):
+                    r = _resolve_any(m, mod, f, call)
+                    if r is None or r[1].qual.split('.')[0] == f.cls:
+                        continue
+                    tmod, target, bound = r
+                    tparams = list(target.args + target.kwonly)
+                    if bound and tparams:
+                        tparams = tparams[1:]
+                    shared = [p for p in tparams if p in attrs_of[f.cls] and (q, target.qual, p) not in NOT_FORWARDED]
+                    if not shared:
+                        continue
+                    mapping, has_star, dstars = bind_args(target, bound, call)
+                    if has_star or dstars:
+                        continue
+                    n += 1
+                    miss = [p for p in shared if p not in mapping]
+                    ctx.check(not miss, 'R-FWD', mod.path, q, 'object settings to %s' % dotted(call[1]),
+                              '%s carries the setting(s) %s as attributes, and %s takes parameter(s) of the same name, but the call does not pass them: the callee uses its '
+                              'default instead of the object\'s value' % (f.cls, miss, target.qual), s.line)
             deleg = list(_delegations(f))
             dids = {id(c) for _, c in deleg}
             # (1c) a function that receives its options as **kwargs passes a ** mapping (or an explicit selection of keywords) to every
